@@ -20,7 +20,7 @@ Theorem C14_fact_routers :
   List.filter is_gov_kind internal_kinds = gov_internal_kinds.
 Proof. vm_compute. repeat split; reflexivity. Qed.
 
-(* ---- (1) lifecycle: the stage never moves backwards, along EVERY history (FULL since /repo d859128).
+(* ---- (1) lifecycle: the stage never moves backwards, along EVERY history (FULL since /repo 9dda72d).
    rank: absent 0 < funding 1 < voting 2 < passed/failed 3 < finalized/finalizeFailed 4. ---- *)
 Theorem C14_stage_monotone : forall ts1 ts2 id,
   (rank_of (run init ts1).1 id <= rank_of (run (run init ts1).1 ts2).1 id)%nat.
@@ -44,7 +44,7 @@ Definition w_life (keep : list (N * N)) : list txop :=
    wtx (OBegin 2) []; wtx (OVote 0%N 10%N OpYes) []; wtx OEnd [];
    wtx (OBegin 3) []; wtx OEnd keep].
 
-(* the former witness of the finding C14.stale_fund_records (fixed by /repo d859128), now an example of the repaired
+(* the former witness of the finding C14.stale_fund_records (fixed by /repo 9dda72d), now an example of the repaired
    behaviour: the finalisation leaves no funder record, a later withdrawal attempt on the finalised proposal (zero or
    positive amount) is refused and the proposal stays in its last stage *)
 Example C14_stale_records_repaired :
@@ -126,7 +126,7 @@ Proof. exact vote_update_powers. Qed.
 (* ---- (5) a configuration change is applied only for a passed proposal, and at most once.
    [sane_op]: the option set in force when a proposal is created has initial funding >= 0 and a pass percentage in
    (0,100] — ValidateProposal demands >= 1 and 51..80 at genesis and at every update.
-   FULL (since /repo c39c303 votes are tallied with the proposal's own percentage, like the finalisation): along every
+   FULL (since /repo 23f7d29 votes are tallied with the proposal's own percentage, like the finalisation): along every
    history, whatever the next operation is (public finalise or the EndBlock queue), a configuration change is
    applied only for a configuration proposal that, in the state in which its finalisation runs, is in the passed
    store with outcome completedYes and votes passing under its own percentage. ---- *)
@@ -144,7 +144,7 @@ Theorem C14_config_only_when_votes_pass : forall s e id s' ev id', h_finalize s 
 Proof. exact config_event_sound. Qed.
 Print Assumptions C14_config_only_when_votes_pass.
 
-(* the former witness of the finding C14.pass_percentage_drift (fixed by /repo c39c303), now an example of the
+(* the former witness of the finding C14.pass_percentage_drift (fixed by /repo 23f7d29), now an example of the
    repaired behaviour: the option is raised from 51 to 80 during the vote, the votes yes(100) yes(100) are tallied
    with the proposal's own 51%: the proposal PASSES with the second vote, is finalised from the passed store, its
    update is applied once and it sits in one store only *)
@@ -180,7 +180,7 @@ Theorem C14_refund_exact : forall s id f amt ben s' ev p,
 Proof. exact withdraw_refund_exact. Qed.
 Print Assumptions C14_refund_exact.
 
-(* "returned in full", FULL (since /repo 65cdcf3 / 7960770 / d859128): along every history the recorded total of every
+(* "returned in full", FULL (since /repo 782c385 / 19a3caa / 9dda72d): along every history the recorded total of every
    proposal is the sum of its non-negative funder records, and a funder of a cancelled / goal-missed proposal whose
    record is committed and positive can withdraw the whole record *)
 Theorem C14_funds_invariant : forall ts, Forall sane_op ts ->
@@ -198,7 +198,7 @@ Theorem C14_refund_in_full : forall ts id f ben p cur,
 Proof. exact refund_in_full. Qed.
 Print Assumptions C14_refund_in_full.
 
-(* the former witness of the finding C14.negative_fund_amount (fixed by /repo 65cdcf3), now an example of the repaired
+(* the former witness of the finding C14.negative_fund_amount (fixed by /repo 782c385), now an example of the repaired
    behaviour: the negative contribution is refused, nobody is paid, and after the cancellation the proposer
    withdraws the whole contribution *)
 Example C14_negative_fund_repaired :
